@@ -180,7 +180,7 @@ PanicTag(call) ==
     [] OTHER -> {}
 
 \* ------------------------------------------------------------------ register file
-Step(rr, e) ==
+RegStep(rr, e) ==
   CASE e.ev = "reset"  -> InitRegs
     [] e.ev = "rload"  -> [rr EXCEPT ![e.dst] = IF e.ok THEN e.val ELSE Nil]
     [] e.ev = "rany"   -> [rr EXCEPT ![e.dst] = e.val]
